@@ -18,6 +18,7 @@ const ALIASES: &[(&str, &str)] = &[
     ("ELF_NOTE_GNU_ABI_TAG_OS_FREEBSD", "ELF_NOTE_OS_FREEBSD"),
     ("VER_NDX_VERSION", "VERSYM_VERSION"),
     ("VER_NDX_HIDDEN", "VERSYM_HIDDEN"),
+    ("EF_RISCV_FLOAT_ABI_MASK", "EF_RISCV_FLOAT_ABI"),
 ];
 
 struct Reference {
@@ -29,7 +30,10 @@ fn reference() -> &'static Reference {
     static R: OnceLock<Reference> = OnceLock::new();
     R.get_or_init(|| {
         let p = verif_model::run::verif_root().join("reference/elf_constants.tsv");
-        let s = std::fs::read_to_string(&p).unwrap_or_default();
+        let mut s = std::fs::read_to_string(&p).unwrap_or_default();
+        // names no installed header defines: transcribed by hand from the ABI documents
+        s.push('\n');
+        s.push_str(&std::fs::read_to_string(verif_model::run::verif_root().join("reference/supplement_constants.tsv")).unwrap_or_default());
         let mut by_name: HashMap<String, BTreeMap<String, i128>> = HashMap::new();
         for l in s.lines() {
             if l.starts_with('#') {
@@ -475,7 +479,7 @@ pub fn property() -> Property {
     Property {
         id: "C19",
         level: "exploration",
-        rule: "finite domains enumerated exhaustively against differential references. const: every `pub const NAME: <int>` of src/abi.rs (extracted by build.rs) vs reference/elf_constants.tsv derived from glibc <elf.h>, Linux uapi linux/elf.h + elf-em.h and LLVM 14 BinaryFormat (values evaluated by the C/C++ compiler); a name is judged when every reference that defines it (under the crate's spelling or the alias table) gives the same value, otherwise it is counted under skipped (references_disagree / no_reference_defines_it). bytes: ELFMAGIC, ELF_NOTE_GNU. layout: size_of, align_of and offset_of!/field size of all 16 #[repr(C)] structs vs reference/struct_layout.tsv (offsetof on <elf.h>). to_str: every helper over u8/u16 exhaustively; u32 helpers additionally over ALL 2^32 arguments (to_str_u32_exhaustive); i64 helpers over all constant values, their neighbours, negations, the same low word under five high words, and pseudo-random values; p_flags_to_string must contain the number for every value >= 8; a helper is symbolic when at least one output is an exported identifier; for symbolic helpers Some(s) => s is exactly an exported identifier whose value is the argument, x_to_string == x_to_str when Some, else contains the number. Non-trivial: a constant that a reference defines / a layout row / a Some answer of a symbolic helper.",
+        rule: "finite domains enumerated exhaustively against differential references. const: every `pub const NAME: <int>` of src/abi.rs (extracted by build.rs) vs reference/elf_constants.tsv derived from glibc <elf.h>, Linux uapi linux/elf.h + elf-em.h and LLVM 14 BinaryFormat (values evaluated by the C/C++ compiler), plus reference/supplement_constants.tsv (40 names that no installed header defines - the ARM PT_ARM_ARCHEXT word layout, DT_ARM_*, R_ARM_THM_ALU_ABS_*, AArch64 section/segment types, ELFCOMPRESS_ZSTD, ELFOSABI_OPENVOS, DT_GUILE_* - transcribed by hand from the ABI documents); a name is judged when every reference that defines it (under the crate's spelling or the alias table) gives the same value, otherwise it is counted under skipped (references_disagree / no_reference_defines_it). bytes: ELFMAGIC, ELF_NOTE_GNU. layout: size_of, align_of and offset_of!/field size of all 16 #[repr(C)] structs vs reference/struct_layout.tsv (offsetof on <elf.h>). to_str: every helper over u8/u16 exhaustively; u32 helpers additionally over ALL 2^32 arguments (to_str_u32_exhaustive); i64 helpers over all constant values, their neighbours, negations, the same low word under five high words, and pseudo-random values; p_flags_to_string must contain the number for every value >= 8; a helper is symbolic when at least one output is an exported identifier; for symbolic helpers Some(s) => s is exactly an exported identifier whose value is the argument, x_to_string == x_to_str when Some, else contains the number. Non-trivial: a constant that a reference defines / a layout row / a Some answer of a symbolic helper.",
         assumptions: &["the reference tables were derived on this image from glibc 2.36-era <elf.h>, linux uapi headers and LLVM 14; names on which they disagree (EM_ALPHA, SHT_HIUSER, R_AARCH64_P32_TLS_DTPMOD/DTPREL, ...) are not judged"],
         subs: vec![
             Sub::enumerated("const", oracle_const, enum_const, true),
